@@ -166,8 +166,112 @@ def translate(evs):
     return out, None
 
 
+def translate_snap(evs):
+    """snap family -> vocabulary of spec/SnapTrace.tla"""
+    reset = evs[0]
+    if reset.get("family") != "snap":
+        return None, "family"
+    if reset.get("burst") or reset.get("sched") in ("free",) or reset.get("spin"):
+        return None, "uncontrolled"
+    out, cmds, held, began = [None], [], {}, set()
+    for e in evs[1:]:
+        ev, c = e["ev"], e.get("c")
+        if ev in ("x_settle", "end"):
+            break
+        if ev == "cmd_call":
+            cmds.append(c)
+            out.append({"a": "Start", "c": c})
+        elif ev == "mem_obs":
+            out.append({"a": "Mem", "cfg": e["cfg"]})
+        elif ev == "file_obs":
+            ln = {"a": "File", "ok": bool(e["ok"]), "cfg": e["cfg"], "point": e["point"]}
+            if e["point"] in ("snap_listed", "snap_created", "snap_written"):
+                held[(c, e["point"])] = ln          # recorded just before the yield event of the same hook
+            else:
+                out.append(ln)
+        elif ev == "y_snap_begin":
+            began.add(c)
+            out.append({"a": "SnapBegin", "c": c})
+        elif ev in ("y_snap_listed", "y_snap_created", "y_snap_written"):
+            acts = {"y_snap_listed": ["Acquire", "List"], "y_snap_created": ["Create"], "y_snap_written": ["Write", "Rename"]}[ev]
+            out += [{"a": a, "c": c} for a in acts]
+            ln = held.pop((c, ev[2:]), None)
+            if ln:
+                out.append(ln)
+            if ev == "y_snap_written":
+                out.append({"a": "Release", "c": c})
+        elif ev == "cmd_ret":
+            out.append({"a": "Return" if c in began else "ReturnWithoutSave", "c": c})
+    if not cmds:
+        return None, "no commands"
+    out[0] = {"a": "header", "cmds": cmds}
+    return out, None
+
+
+def translate_own(evs):
+    """own family (racing deploys / removes of several services) -> vocabulary of spec/OwnTrace.tla"""
+    reset = evs[0]
+    if reset.get("family") != "own":
+        return None, "family"
+    if reset.get("burst") or reset.get("sched") in ("free",) or reset.get("spin"):
+        return None, "uncontrolled"
+    out, cmds, info, lb_of, called = [None], [], [], {}, set()
+    for e in evs[1:]:
+        ev, c = e["ev"], e.get("c")
+        if ev in ("x_settle", "end"):
+            break
+        if ev == "cmd_call":
+            if e["kind"] not in ("deploy", "remove"):
+                return None, "command kind " + e["kind"]
+            hosts = e.get("hosts") or [""]
+            paths = e.get("paths") or ["/"]
+            bind = sorted({h + "|" + p for h in hosts for p in paths}) if e["kind"] == "deploy" else []
+            cmds.append(c)
+            info.append({"kind": e["kind"], "name": e["svc"], "bind": bind})
+            for t in e.get("targets") or []:
+                if t in lb_of:
+                    return None, "target reused"
+                lb_of[t] = c
+        elif ev == "e_dep_new_lb":
+            called.add(c)
+            out.append({"a": "Call", "c": c})
+        elif ev == "y_dep_healthy":
+            out.append({"a": "WaitOk", "c": c})
+        elif ev == "e_install":
+            out.append({"a": "Install", "c": c})
+        elif ev == "e_install_conflict":
+            out.append({"a": "Conflict", "c": c})
+        elif ev == "e_remove":
+            if c is None:
+                return None, "remove outside a command"
+            out.append({"a": "Remove", "c": c})
+        elif ev == "e_hc_close":
+            if e["tg"] not in lb_of:
+                return None, "unknown target"
+            out.append({"a": "Close", "lb": lb_of[e["tg"]]})
+        elif ev == "cmd_ret":
+            k = info[cmds.index(c)]["kind"]
+            if k == "deploy" and c not in called:
+                return None, "deploy refused before it began"
+            if e["res"] not in ("ok", "unhealthy", "host_in_use", "not_found"):
+                return None, "result " + e["res"]
+            out.append({"a": "PreRet", "c": c})
+            out.append({"a": "Return", "c": c, "res": e["res"]})
+        elif ev == "probing_obs":
+            if any(t not in lb_of for t in e["tgs"]):
+                return None, "unknown target"
+            out.append({"a": "Probing", "lbs": sorted({lb_of[t] for t in e["tgs"]})})
+    if not cmds:
+        return None, "no commands"
+    out[0] = {"a": "header", "cmds": cmds, "info": info}
+    return out, None
+
+
+KINDS = {"proxy": ("ProxyTrace", None), "snap": ("SnapTrace", None), "own": ("OwnTrace", None)}
+
+
 def _run_one(args):
-    wd, idx, lines = args
+    wd, idx, lines, module = args
     tf = os.path.join(wd, "t%05d.ndjson" % idx)
     of = os.path.join(wd, "t%05d.out.json" % idx)
     with open(tf, "w") as f:
@@ -176,8 +280,8 @@ def _run_one(args):
     md = tempfile.mkdtemp(prefix="md-", dir=wd)
     # many short single-threaded JVMs side by side: keep each one small
     env = dict(os.environ, VERIF_TRACE=tf, VERIF_OUT=of,
-               JAVA_TOOL_OPTIONS="-XX:ParallelGCThreads=1 -Xmx1g -XX:TieredStopAtLevel=1 -XX:CICompilerCount=1")
-    p = subprocess.run(["timeout", "120", "tlc", "-workers", "1", "-metadir", md, "-config", "ProxyTrace.cfg", "ProxyTrace.tla"],
+               JAVA_TOOL_OPTIONS=vlib.java_opts("-XX:ParallelGCThreads=1 -Xmx1g -XX:TieredStopAtLevel=1 -XX:CICompilerCount=1"))
+    p = subprocess.run(["timeout", "120", "tlc", "-workers", "1", "-metadir", md, "-config", module + ".cfg", module + ".tla"],
                        cwd=wd, env=env, capture_output=True, text=True)
     shutil.rmtree(md, ignore_errors=True)
     res = {"idx": idx, "rc": p.returncode, "lines": len(lines)}
@@ -191,16 +295,18 @@ def _run_one(args):
     return res
 
 
-def validate(trace_paths, limit=None, procs=None):
+def validate(trace_paths, limit=None, procs=None, kind="proxy"):
     """Translate and validate scenarios; returns dict(validated, accepted, skipped{reason:n}, rejected[...], events)."""
     wd = vlib.spec_copy("dtrace")
+    module = KINDS[kind][0]
+    tr = {"proxy": translate, "snap": translate_snap, "own": translate_own}[kind]
     jobs, skipped, actions = [], collections.Counter(), collections.Counter()
     meta = {}
     per_path = []
     for tp in trace_paths:
         cands = []
         for scn, evs in scenarios(tp):
-            lines, why = translate(evs)
+            lines, why = tr(evs)
             if lines is None:
                 skipped[why] += 1
             else:
@@ -219,7 +325,7 @@ def validate(trace_paths, limit=None, procs=None):
         for ln in lines[1:]:
             actions[ln["a"]] += 1
         meta[len(jobs)] = (tp, scn)
-        jobs.append((wd, len(jobs), lines))
+        jobs.append((wd, len(jobs), lines, module))
     with ThreadPoolExecutor(max_workers=procs or vlib.NCPU) as ex:
         results = list(ex.map(_run_one, jobs))
     rejected, broken = [], []
@@ -238,7 +344,7 @@ def validate(trace_paths, limit=None, procs=None):
 
 
 if __name__ == "__main__":
-    res = validate(sys.argv[1:])
+    res = validate(sys.argv[2:], kind=sys.argv[1])
     wd = res.pop("wd")
     print(json.dumps({k: v for k, v in res.items() if k not in ("rejected", "broken")}, indent=1))
     for r in res["rejected"][:10]:
